@@ -39,6 +39,15 @@ Theorem C20_no_dangling_any_table : forall sigs items inval statics,
 Proof. exact sound_table_no_dangling. Qed.
 Print Assumptions C20_no_dangling_any_table.
 
+(* the second half of C20 ("the corresponding well-ordered programs compile"): a resolved string is borrowed from the
+   receiver ONLY - no string-returning entry point ties its result to the key argument, so a program may let the key die
+   before it uses the string (extracted signatures; rustc probes `keyfree_*` are the oracle) *)
+Theorem C20_strings_borrow_only_the_receiver :
+  forallb (fun x : string * bool => negb (snd x)) Facts.out_borrows_argument = true /\
+  12 <= length Facts.out_borrows_argument.
+Proof. vm_compute. split; [reflexivity|repeat constructor]. Qed.
+Print Assumptions C20_strings_borrow_only_the_receiver.
+
 (* not vacuous: the checker rejects the ill-ordered programs and accepts their well-ordered twins *)
 Example C20_rejects_use_after_clear :
   accepts_now [Call "Rodeo::resolve" 0 0; Mutate "Rodeo::clear" 0; Use 0] = false /\
